@@ -121,7 +121,11 @@ impl SampleTables {
                     32,
                     true,
                 );
-                let offset = (sample.pts as i64 - sample.dts as i64) as i32;
+                // Computed in 128 bits: ticks are arbitrary u64 values and
+                // 'pts as i64 - dts as i64' overflowed (panic in checked builds) once pts
+                // reached 2^63 while dts was still below it. The difference itself was
+                // range-checked when the sample was accepted.
+                let offset = (i128::from(sample.pts) - i128::from(sample.dts)) as i32;
                 if offset != 0 {
                     has_bframes = true;
                 }
